@@ -19,7 +19,7 @@ Proof. exact run_sess_le. Qed.
    closed-connection error for writes, and normal close returns *)
 Theorem closed_is_absorbing : forall evs s s' os, shut s -> Forall data_event evs -> run s evs = (s', os) ->
   shut s' /\ wire s' = wire s /\
-  Forall (fun o => (exists d, o = ORet d) \/ o = OExc XClosed \/ o = ODone \/ o = OStep \/ o = ONone) os.
+  Forall (fun o => (exists d, o = ORet d) \/ o = OExc XClosed \/ o = OExc XValue \/ o = ODone \/ o = OStep \/ o = ONone) os.
 Proof. exact run_shut. Qed.
 
 Theorem closed_is_absorbing_calls : forall s ev s' o, shut s -> data_event ev -> step s ev = (s', o) ->
@@ -28,6 +28,8 @@ Theorem closed_is_absorbing_calls : forall s ev s' o, shut s -> data_event ev ->
   | URead _ _ => exists d, o = ORet d /\ d ++ rbuf s' = rbuf s /\ sess s' = sess s
   | UWrite _ => o = OExc XClosed /\ s' = s
   | UClose => o = ODone /\ s' = s
+  | UKeyUpdate | UHeartbeat _ => o = OExc XClosed /\ s' = s
+  | UPha _ => o = OExc XValue /\ s' = s
   | _ => sess s' = sess s
   end.
 Proof. exact step_shut. Qed.
@@ -50,7 +52,7 @@ Theorem after_close_notify : forall s l rest mx mn,
     (sock_open s = true -> txf s = None -> wire s1 = wire s ++ [WAlert 1 0]) /\
     forall evs s2 os, Forall data_event evs -> run s1 evs = (s2, os) ->
       closed s2 = true /\ sess s2 = sess s /\ wire s2 = wire s1 /\
-      Forall (fun o => (exists d, o = ORet d) \/ o = OExc XClosed \/ o = ODone \/ o = OStep \/ o = ONone) os /\
+      Forall (fun o => (exists d, o = ORet d) \/ o = OExc XClosed \/ o = OExc XValue \/ o = ODone \/ o = OStep \/ o = ONone) os /\
       (rbuf s1 = [] -> Forall (fun o => forall d, o = ORet d -> d = []) os).
 Proof. exact after_close_notify_lemma. Qed.
 
@@ -80,9 +82,12 @@ Theorem truncation_never_eof_general : forall s mx mn s' d,
   exists l, In (IAlert l 0) (inq s).
 Proof. exact read_closes_only_on_close_notify. Qed.
 
-(* whenever ANY call raises, the connection is closed afterwards (states reachable from a
-   fresh connection satisfy inv, see inv_reachable) *)
-Theorem exception_closes : forall s ev s' x, inv s -> step s ev = (s', OExc x) -> closed s' = true.
+(* whenever a call raises, the connection is closed afterwards (states reachable from a fresh
+   connection satisfy inv, see inv_reachable) -- for read, write, close and the handshake calls.
+   _partial: for the public post-handshake calls send_keyupdate_request,
+   request_post_handshake_auth and write_heartbeat the statement is false, see
+   post_handshake_fault_contained_refuted. *)
+Theorem exception_closes_partial : forall s ev s' x, inv s -> ~ post_call ev -> step s ev = (s', OExc x) -> closed s' = true.
 Proof. exact exc_closes. Qed.
 
 Theorem inv_reachable : forall a b c d n evs s' os, run (init a b c d n) evs = (s', os) -> inv s'.
@@ -100,6 +105,68 @@ Theorem fault_in_write : forall s d e, closed s = false -> wq s = [] -> bufw s =
   exists s', step s (UWrite d) = (s', OExc (XSock e)) /\ closed s' = true /\
              sess s' = (if ign s then sess s else option_map (fun _ => false) (sess s)).
 Proof. exact write_fault. Qed.
+
+(* a transport failure exactly at a public post-handshake call.  KeyUpdate / post-handshake
+   CertificateRequest are handshake-type records: the code looks at the next incoming record.
+   When one is waiting the connection is closed (alert => TLSRemoteAlert, anything else => the
+   socket error); when none is waiting and the receive side has ended, the abrupt-close / socket
+   error of that read leaves with NOTHING having closed the connection (state unchanged).
+   _partial: the cases are exactly these; the full statement is refuted below. *)
+Theorem post_handshake_fault_contained_partial : forall s e,
+  closed s = false -> tls13 s = true -> wq s = [] -> bufw s = false -> tx_dead s e ->
+  match inq s with
+  | [] => match rxe s with
+          | RxOpen => step s UKeyUpdate = (s, OBlocked)
+          | RxEof => step s UKeyUpdate = (s, OExc XAbrupt)
+          | RxErr e' => step s UKeyUpdate = (s, OExc (XSock e'))
+          end
+  | IAlert l d :: _ =>
+      exists s', step s UKeyUpdate = (s', OExc (XRemote d)) /\ closed s' = true /\
+                 sess s' = option_map (fun _ => false) (sess s)
+  | _ :: _ =>
+      exists s', step s UKeyUpdate = (s', OExc (XSock e)) /\ closed s' = true /\
+                 sess s' = option_map (fun _ => false) (sess s)
+  end.
+Proof. exact keyupdate_fault. Qed.
+
+Theorem post_handshake_auth_fault_partial : forall s e,
+  closed s = false -> tls13 s = true -> wq s = [] -> bufw s = false -> tx_dead s e ->
+  match inq s with
+  | [] => match rxe s with
+          | RxOpen => step s (UPha true) = (s, OBlocked)
+          | RxEof => step s (UPha true) = (s, OExc XAbrupt)
+          | RxErr e' => step s (UPha true) = (s, OExc (XSock e'))
+          end
+  | IAlert l d :: _ =>
+      exists s', step s (UPha true) = (s', OExc (XRemote d)) /\ closed s' = true /\
+                 sess s' = option_map (fun _ => false) (sess s)
+  | _ :: _ =>
+      exists s', step s (UPha true) = (s', OExc (XSock e)) /\ closed s' = true /\
+                 sess s' = option_map (fun _ => false) (sess s)
+  end.
+Proof. exact pha_fault. Qed.
+
+(* a heartbeat request that cannot be sent: socket.error, and the state is untouched *)
+Theorem heartbeat_fault_partial : forall s e, closed s = false -> bufw s = false -> tx_dead s e ->
+  step s (UHeartbeat true) = (s, OExc (XSock e)).
+Proof. exact heartbeat_fault. Qed.
+
+(* "a transport failure at a public post-handshake call closes the connection" is false of the
+   faithful model (finding 3) *)
+Theorem post_handshake_fault_contained_refuted : ~ post_handshake_fault_contained_full.
+Proof. exact post_handshake_fault_contained_not_full. Qed.
+
+(* the witnesses as histories from a fresh connection: handshake, the transport dies, the call
+   raises -- closed is still False and the session still resumable; only the next write notices *)
+Theorem post_handshake_fault_refuted_history_keyupdate :
+  let '(s', os) := run (init false true true false 16384) (firstn 9 (post_fault_script UKeyUpdate)) in
+  nth 8 os ONone = OExc XAbrupt /\ closed s' = false /\ sess s' = Some true.
+Proof. exact keyupdate_fault_history_open. Qed.
+
+Theorem post_handshake_fault_refuted_history_heartbeat :
+  let '(s', os) := run (init false true false false 16384) (firstn 9 (post_fault_script (UHeartbeat true))) in
+  nth 8 os ONone = OExc (XSock 32) /\ closed s' = false /\ sess s' = Some true.
+Proof. exact heartbeat_fault_history_open. Qed.
 
 (* transport faults at a step of a handshake: the call raises the abrupt-close or a socket
    error, the handshake is over, the connection closed, the session not resumable *)
